@@ -86,6 +86,13 @@ def observe(t, ref, ix, periodic):
     if not periodic:
         o["rmsd"] = md.rmsd(_copy(t), _copy(ref), 0)
         o["rg"] = md.compute_rg(t)
+        # mass-weighted variants (explicit mass vector that does not average to 1): a centre computed with another
+        # normalisation than the weights cancels only at the origin
+        masses = np.array([a.element.mass for a in t.topology.atoms])
+        o["rg_masses"] = md.compute_rg(t, masses=masses)
+        o["inertia_eig"] = np.sort(np.linalg.eigvalsh(md.compute_inertia_tensor(t)), axis=1)
+        com = md.compute_center_of_mass(t)
+        o["com_to_atom0"] = np.linalg.norm(t.xyz[:, 0, :].astype(np.float64) - com, axis=1)
         o["gyration_eig"] = np.sort(np.linalg.eigvalsh(md.compute_gyration_tensor(t)), axis=1)
         o["principal_moments"] = md.principal_moments(t)
         o["drid"] = md.compute_drid(t, atom_indices=ix["heavy"][:25])
@@ -100,7 +107,8 @@ def observe(t, ref, ix, periodic):
     nres = t.topology.n_residues
     cp = [[i, j] for i in range(nres) for j in range(i + 1, nres)][:40]
     o["contacts"] = md.compute_contacts(t, cp, scheme="closest-heavy", periodic=periodic)[0] if cp else np.zeros((t.n_frames, 0))
-    o["bh"] = [md.baker_hubbard(t[f], freq=0.0, periodic=periodic) for f in range(t.n_frames)]
+    # exclude_water=False: in the small periodic system the acceptor of the one designed hydrogen bond is a water oxygen
+    o["bh"] = [md.baker_hubbard(t[f], freq=0.0, periodic=periodic, exclude_water=False) for f in range(t.n_frames)]
     q = ix["heavy"][:3]
     o["neighbors"] = [np.asarray(x) for x in md.compute_neighbors(t, ix["cutoff"], q, periodic=periodic)]
     if periodic:
@@ -169,6 +177,10 @@ def compare(c, o0, o1, f0, f1, x0, td, ix, case, periodic, mic_d=None, radii=Non
         scale = np.abs(x0 - x0.mean(0)).max()
         c.cont("rmsd", o0["rmsd"][f0], o1["rmsd"][f1], 2 * td + 64 * EPS * scale, case)
         c.cont("rg", o0["rg"][f0], o1["rg"][f1], td, case)
+        c.cont("rg_masses", o0["rg_masses"][f0], o1["rg_masses"][f1], 2 * td, case)
+        mtot = 12.0 * len(x0)
+        c.cont("inertia_eig", o0["inertia_eig"][f0], o1["inertia_eig"][f1], 8 * mtot * scale * td + 1e-6, case)
+        c.cont("com_to_atom0", o0["com_to_atom0"][f0], o1["com_to_atom0"][f1], 2 * td, case)
         c.cont("gyration_eig", o0["gyration_eig"][f0], o1["gyration_eig"][f1], 4 * scale * td, case)
         c.cont("principal_moments", o0["principal_moments"][f0], o1["principal_moments"][f1], 4 * scale * td, case)
         # DRID: moments of 1/d, d >= ~0.1 nm: |d(1/d)| <= td / d^2
